@@ -16,6 +16,7 @@ Decided:
  T6 no use-after-free steered by response bytes: a DMA region attached to a device resource as backing leaves the
     driver object (take / = None) only after the device was told to detach it, on every path - including the paths on
     which a device-written response makes a teardown command fail (C20.Z4; GPU driver; configurations with `alloc`).
+ T7 device-advertised window lengths bound every configuration access (C13.G1/G5 tables).
 Not decided: absence of panics (the property allows clean panics); arbitrary callers of the unsafe queue API.
 """
 from .common import *
@@ -97,6 +98,11 @@ def run(F, R):
     else:
         R.held('T1', 'no-load:desc+avail', '', 'no load from the descriptor table or available ring in %d functions; control: %d used-ring loads recognised' % (nf, used_loads))
     t5_token_provenance(F, R, M)
+    # T7: device-chosen window sizes cannot cause an out-of-window access: the config-space accessors admit an access only
+    # if offset + size_of::<T>() fits the window the device advertised (table shared with C13.G1 / G5)
+    from .C13 import g1_bounds, g5_window_extent
+    g1_bounds(F, RuleProxy(R, {'G1': 'T7'}))
+    g5_window_extent(F, RuleProxy(R, {'G5': 'T7'}), rule='G5')
     if 'device::gpu::VirtIOGpu' in F.adts:
         from . import C05 as _c5
         from .C20 import z3_z4_gpu
